@@ -19,7 +19,7 @@
 (*     or the empty record (id 0).  "before"/"after" are positions in the  *)
 (*     order of the set (so they flip for a descending column), and the    *)
 (*     probe is compared on as many leading sort columns as it has values. *)
-(*   Prev/Next/RankOf(ord, id)  the neighbours and the 1-based position of   *)
+(*   PrevOf/NextOf/RankOf(ord, id)  the neighbours and the 1-based position *)
 (*     the record in its ordered group (order "desc": counted from the     *)
 (*     end).  Ties of the order_by columns are positions too: RANK is the  *)
 (*     position, not a dense or competition rank.                          *)
